@@ -55,6 +55,21 @@ CHECKS.update({
             "TLA+ proves nothing about Go memory safety; the level is model-guided exploration.  Trusted: recover() and the watchdog as monitors.", "DESIGN.md 6/C07"),
 })
 
+TT_NOTE = ("Trusted: TLC; the toy calendar of the exhaustive runs (4 ticks a day, week starts 1/2/3 ticks before Sunday, 3.4 weeks horizon) stands for the real one; "
+           "reported times are read back from the message's SentAt/StartOfWeek strings; conformance is sampling over generated and TLC-simulated histories.")
+CHECKS.update({
+    "C06": ("model_checking", "TLC model checking of TimeTrack.tla against the true-time spec + TLC-simulated and counterexample histories replayed on the real handler + TLC trace validation (Time_Trace.tla)",
+            "Design level: the handler's rollover algorithm (TimeTrack.tla, one Convert per message) reports the true time and start of week for every start time, every interleaving of 2-3 constellations, "
+            "illegal timestamps anywhere, over 3 toy weeks; the as-found deviations are named switches whose counterexamples TLC produces.  Code level: those counterexamples, random TLC simulations and "
+            "rollover-focused generated histories are encoded into CRC-valid MSM frames and pushed through GetMessage and HandleMessages; TLC validates every reported time against the truth with the real "
+            "constants (18 s / 4 s / 3 h offsets) and decides the property's preconditions itself.",
+            TT_NOTE, "DESIGN.md 6/C06"),
+    "C17": ("model_checking", "as C06 with the weaker precondition (first observation anywhere in the start time's constellation week)",
+            "Same specifications as C06 with FirstNotBeforeT = FALSE: model checked for all (T, first observation) pairs of a week and continuations; the real handler is driven with first observations "
+            "before, at and after T (down to +-1 ms and the week's last ms) for all four constellations.",
+            TT_NOTE, "DESIGN.md 6/C17"),
+})
+
 NOT_YET = {}
 
 
